@@ -30,27 +30,27 @@ def parseOut (srcs : List (List MMsg)) (s : String) : List MMsg :=
     | _ => { src := 999, pos := 0, recv := 0 }
 
 def modelOut (mode : String) (i0 : Nat) (srcs : List (List MMsg)) : List MMsg :=
-  let single := srcs.length == 1
-  if mode == "m" || (mode == "M" && !single) then renumber i0 (merge srcs)
-  else if mode == "c" || (mode == "C" && !single) then seqChain i0 srcs
-  else srcs.flatten   -- the single source untouched, with its own indices
+  if mode == "m" then renumber i0 (merge srcs)
+  else if mode == "M" then mergeOrSingle i0 srcs
+  else if mode == "c" then seqChain i0 srcs
+  else chainOrSingle i0 srcs
 
 def oracle (mode : String) (i0 : Nat) (srcs : List (List MMsg)) (out : List MMsg) : String :=
-  let single := srcs.length == 1
-  let merging := mode == "m" || (mode == "M" && !single)
-  let chaining := mode == "c" || (mode == "C" && !single)
+  let merging := mode == "m" || mode == "M"
   let numbered := out.map (·.index) == List.range' i0 out.length
   let keys (l : List MMsg) := l.map fun m => (m.src, m.pos)
+  -- the documented shortcut of `new_or_single_it` (one source: handed back with its own numbering) has its own clause
+  let numberingClause := if (mode == "M" || mode == "C") && srcs.length == 1 && out == srcs.flatten
+    then "FAIL:single-source-keeps-its-own-numbering" else "FAIL:numbering"
   if merging then
     if out.length != total srcs then "FAIL:message-count"
     else if !(srcs.zipIdx.all fun (s, i) => keys (out.filter (·.src == i)) == keys s) then "FAIL:per-source-order-or-loss"
-    else if !numbered then "FAIL:numbering"
+    else if !numbered then numberingClause
     else if (srcs.all fun s => (s.zip s.tail).all fun (a, b) => a.recv ≤ b.recv) && !((out.zip out.tail).all fun (a, b) => a.recv ≤ b.recv) then "FAIL:not-sorted-by-reception-time"
     else if !accepts srcs out then "FAIL:not-a-valid-merge"
     else "ok"
-  else if chaining then
-    if keys out != keys srcs.flatten then "FAIL:chain-not-concatenation" else if !numbered then "FAIL:numbering" else "ok"
-  else if keys out != keys srcs.flatten || out.map (·.index) != srcs.flatten.map (·.index) then "FAIL:single-source-altered" else "ok"
+  else
+    if keys out != keys srcs.flatten then "FAIL:chain-not-concatenation" else if !numbered then numberingClause else "ok"
 
 def doLine (line : String) : String :=
   let (cs, impl) := match line.splitOn "\t" with
